@@ -129,6 +129,23 @@ CHECKS["C16"] = dict(level="fault_enumeration", ref="DESIGN.md 5 C16",
     note="Trusted: TLC, harness/fsshim.c (crash = _exit before the operation: process death, buffered data lost), the "
          "recovery probe. File backend; objects below the stdio buffer size. Four known findings (in-place rewrite "
          "windows and multi-step creation) are reported as KNOWN-FINDING; anything else is a VIOLATION.")
+CHECKS["C15"] = dict(level="model_checking", ref="DESIGN.md 5 C15",
+    tech="TLA+ specifications at two grains (P11MP: calls of 2-3 processes; StoreMP: groups of file operations) + TLC "
+         "exhaustive state graphs + replay of every transition on REAL processes (LD_PRELOAD gate for file-operation "
+         "schedules) + TLC trace validation",
+    text="Call grain: TLC enumerates P11MP (every interleaving of create/set/get/destroy/find by 2-3 processes on token, "
+         "session and private objects; the per-process directory snapshot and stale sets of the code are state, so each "
+         "way a cache can be stale is a distinct transition); every transition is replayed on real processes sharing one "
+         "token directory and TLC validates every result (found exactly the visible objects with their committed values, "
+         "each once; handle of a destroyed object invalid; a fresh process sees the committed state). File-operation "
+         "grain: StoreMP (refresh / transaction lock / write lock / truncate / flush / unlock, unlink) is model checked "
+         "in its required form (NoLostCommittedUpdate, DestroyedStaysDestroyed, with crashes); every transition of the "
+         "model with all choices open is a schedule that the shim's gate mode imposes on 2-3 real processes, and TLC "
+         "validates what each step returned and each value read.",
+    note="Trusted: TLC, harness/fsshim.c (gate), vf/mpworker.py. File backend, local file system. Two known findings "
+         "(stale commit after a concurrent commit; re-creation of a concurrently destroyed object) are accepted only as "
+         "the named deviation in exactly those schedules and printed as KNOWN-FINDING after a required-protocol "
+         "validation of an example rejects it.")
 NA = {
     "C17": "memory safety and arbitrary byte-level inputs are outside what a TLA+ specification and trace validation can "
            "observe (DESIGN.md 5 C17); crashes met while replaying are reported under the property whose check ran",
